@@ -135,7 +135,11 @@ func (c *Ctx) ruleScalarMultLoops(cfg string) {
 		st := p.Root.Members["Scalar"].Type()
 		bound := 3
 		if f != nil {
-			b, detail, ok := c.termBound(p, f, 3)
+			base := 3
+			if c.Tier == "thorough" {
+				base = 6 // deeper enumeration in the thorough tier
+			}
+			b, detail, ok := c.termBound(p, f, base)
 			bound = b
 			c.Set.Add(report.Obligation{Rule: "N-UNIFORM", Key: "N-UNIFORM/" + fname, Config: cfg, Pos: p.Rel(f.Pos()), OK: ok, Detail: detail})
 		}
@@ -516,7 +520,11 @@ func (c *Ctx) ruleVarTimeLoops(cfg string) {
 		st := p.Root.Members["Scalar"].Type()
 		bound := 2
 		if f != nil {
-			b, detail, ok := c.termBound(p, f, 2)
+			base := 2
+			if c.Tier == "thorough" {
+				base = 4
+			}
+			b, detail, ok := c.termBound(p, f, base)
 			bound = b
 			c.Set.Add(report.Obligation{Rule: "N-UNIFORM", Key: "N-UNIFORM/" + fname, Config: cfg, Pos: p.Rel(f.Pos()), OK: ok, Detail: detail})
 		}
